@@ -374,7 +374,7 @@ def main(chk):
     chk.parallel(_dispatch, tasks)
 
     # whole sessions (Client::handle executed): before each statement of the client runs, the backend's tracked parameters are the client's
-    hobl.handle_obligations(chk, chk.program('on'), {'C12'}, ['params'])
+    hobl.handle_obligations(chk, chk.program('on'), {'C12'}, ['params', 'two-clients'])
 
 if __name__ == '__main__':
     run_check('C12', main)
